@@ -51,10 +51,16 @@ func newScannerBuf(file string, r io.Reader, buf []byte) *Scanner {
 // size".
 const DefaultBufSize = 128 << 10
 
+// Every window is allocated with room for one more rune behind the largest
+// token it admits.  The rune that follows a token of the maximum size can then
+// always be decoded, so whether a token is accepted depends on its own size
+// and not on what comes after it.
+const lookahead = utf8.UTFMax
+
 // NewScanner initializes and returns a new Scanner reading through a
 // DefaultBufSize sliding window.
 func NewScanner(file string, r io.Reader) *Scanner {
-	buf := make([]byte, DefaultBufSize)
+	buf := make([]byte, DefaultBufSize+lookahead)
 	return newScannerBuf(file, r, buf)
 }
 
@@ -72,9 +78,7 @@ func NewScanner(file string, r io.Reader) *Scanner {
 // attacker controls, in a parser whose job is to survive untrusted phylum
 // source.
 func NewScannerString(file, src string) *Scanner {
-	// One byte more than src: the window of a scanner that has all of its
-	// input is then never full, which is what TokenTooLarge tests.
-	return newScannerBuf(file, strings.NewReader(src), make([]byte, len(src)+1))
+	return newScannerBuf(file, strings.NewReader(src), make([]byte, len(src)+lookahead))
 }
 
 // SetPath associates a physical location (e.g. filesystem path) with s to aid
@@ -385,15 +389,14 @@ func (s *Scanner) Loc() *Location {
 }
 
 // TokenTooLarge reports whether the text scanned since the last call to
-// EmitToken or Ignore fills the whole window.  The window cannot slide any
-// further then, so Peek and the Accept functions stop as they do at the end of
-// a token although the token may continue in the unread input.  A caller that
-// scans with those functions has to test this before it emits the text, or a
-// token larger than the window is cut in two without any error.
+// EmitToken or Ignore is larger than the largest token the window admits.
+// When the window is full it cannot slide any further, so Peek and the Accept
+// functions stop as they do at the end of a token although the token may
+// continue in the unread input.  A caller that scans with those functions has
+// to test this before it emits the text, or a token larger than the window is
+// cut in two without any error.
 func (s *Scanner) TokenTooLarge() bool {
-	// The window may end inside a multi-byte rune, so "full" means that what
-	// is left of it is not a whole rune.
-	return s.start == 0 && len(s.buf) > 0 && len(s.buf) == cap(s.buf) && !utf8.FullRune(s.buf[s.next:])
+	return s.next-s.start > cap(s.buf)-lookahead
 }
 
 func (s *Scanner) checkExtend() error {
